@@ -27,7 +27,11 @@ RULE = ("each case = a seeded history of 1-4 sets over 1-3 keys (new key, overwr
         "operation trace, incl. after the last return) x every persistence outcome of model A-FS (un-synced metadata "
         "journal prefix; per file un-synced data none / 1 byte / half / all-but-one / all) is materialised and a fresh "
         "store opened on it; evaluations = crash images checked; a case is non-trivial when it has >= 2 sets or a nested "
-        "key; distinct = distinct (trace shape, key pattern) digests")
+        "key; distinct = distinct (trace shape, key pattern) digests.  Drawn per case: one or two live store objects, gets "
+        "between the sets, reopen between sets, a concurrent reader, a second writer, somebody opening a store object at an "
+        "arbitrary moment, one injected I/O error (fsync/write/create), values on buffer and 64 KiB boundaries, Unicode / case "
+        "variant keys; names a set touches besides its own file are occupied by keys in a second pass; never-set keys on the "
+        "path of nested keys are read in every image")
 EXHAUSTIVE_NOTE = ("crash points and persistence outcomes are enumerated exhaustively per generated history (at most one file "
                    "deviates from 'all un-synced data persisted' per image, plus the all-lost image); histories are sampled")
 ASSUMPTIONS = [
@@ -41,7 +45,9 @@ REAL_STUB = {
     "stub": ["open/os in file_cache -> SimFS (raw level) with operation trace", "lock/executor -> SimLock/SimExecutor",
              "power loss -> crash images derived from the trace under A-FS", "realkill: process kill = os._exit at an op boundary"],
 }
-EXPECTED_PROBES = ["probe_nested_key", "probe_overwrite", "probe_big_value", "probe_crash_inside_set", "probe_unsynced_data_images"]
+EXPECTED_PROBES = ["probe_nested_key", "probe_overwrite", "probe_big_value", "probe_crash_inside_set", "probe_unsynced_data_images",
+                   "probe_store_opened_at_an_arbitrary_moment", "probe_never_set_prefix_key_read_after_crash", "probe_two_handles",
+                   "probe_second_writer_set", "probe_set_failed_on_io_error", "probe_reopen_between_sets"]
 WALL_CAP = {"quick": 400, "thorough": 3600}
 
 _fc = None
